@@ -87,7 +87,12 @@ int main(void)
     VF_ASSERT(state == st_session_terminated && shutdown, "C23: an initiator treats a Logon reply whose CompIDs do not mirror its identity as a mismatch and terminates (enforcement on)");
     VF_REACH();
   }
-  if (mirror && seq == pre_recv) { VF_ASSERT(state == st_continuous && !shutdown && n_timer_sched == 1, "C23: a mirrored, in-sequence Logon reply establishes the session"); VF_REACH(); }
+  if (mirror && seq == pre_recv) {
+    VF_ASSERT(state == st_continuous && !shutdown && n_timer_sched == 1, "C23: a mirrored, in-sequence Logon reply establishes the session");
+#if MNT == NS && MNS == NT      /* with other length combinations no reply can mirror the identity: the goal would be unreachable by construction */
+    VF_REACH();
+#endif
+  }
   if (state == st_continuous) { VF_ASSERT(!enforce || mirror, "C23: an initiator session is established only with mirrored CompIDs (enforcement on)"); VF_REACH(); }
 #endif
   VF_REACH();
